@@ -18,12 +18,12 @@ Definition tz (u_ : Z) : etx :=
      t_gas := 3024000; t_value := 0; t_to := 17%nat; t_intrinsic := 24000; t_evm := EvmFail; t_gas_used := u_ |}.
 
 (** Z pays 1 NIBI to x/distribution and calls FunToken.bankMsgSend(B, 1 unibi) … *)
-Definition pay_blocked_then_precompile : list xop := [XOp (OTransfer 17 18 1000000000000000000); XPre (Some (17%nat, 4%nat, 1))].
+Definition pay_blocked_then_precompile : list xop := [XOp (OTransfer 17 18 1000000000000000000); XPre [(17%nat, 4%nat, 1)] false].
 (** … inside a sub-call that reverts, in a tx that succeeds *)
 Definition xs_sub_revert : list xop := [XFrame pay_blocked_then_precompile false].
 (** … a busier one: B is paid, the failing flush happens in a reverted frame, then a bank send that works *)
 Definition xs_mixed : list xop :=
-  [XOp (OTransfer 17 4 3000000000005); XFrame [XOp (OTransfer 17 1 2000000000000); XPre None] false; XPre (Some (17%nat, 2%nat, 7))].
+  [XOp (OTransfer 17 4 3000000000005); XFrame [XOp (OTransfer 17 1 2000000000000); XPre [] false] false; XPre [(17%nat, 2%nat, 7)] false].
 
 Lemma ex0_wf : env_wf ex0.
 Proof.
@@ -32,7 +32,7 @@ Proof.
 Qed.
 
 Lemma bx0_nonneg : nonneg (bal bx0).
-Proof. intro a. do 19 (destruct a as [|a]; [vm_compute; congruence|]). vm_compute. congruence. Qed.
+Proof. intro a. do 20 (destruct a as [|a]; [vm_compute; congruence|]). vm_compute. congruence. Qed.
 
 Definition xshown : list nat := [0; 1; 2; 4; 16; 17; 18]%nat.
 Definition xshow (r : bank * outcome * list op) : outcome * list Z * Z * list op :=
